@@ -177,6 +177,9 @@ def run(ctx, env):
                 ctx.ob("R11.3", p, "writes-self", False, "assignment through self at %s" % site(s["span"]), site=site(s["span"]))
     from .cache import extra_state_writes
     for (adt, fld), info in sorted(extra_state_writes(prog, parse_bodies).items()):
+        if info.get("sink"):
+            ctx.ob("R11.3", adt, "extra-state:%s" % fld, True, "parser field %s.%s is a write-only diagnostics sink on the parse path (never read there; lent only to `()`-returning crate functions)" % (adt.rsplit("::", 1)[-1], fld))
+            continue
         ctx.ob("R11.3", adt, "extra-state:%s" % fld, not info["writes"],
                "parser field %s.%s is written on the parse path at %s: state that survives between packets/calls besides the template maps" % (adt.rsplit("::", 1)[-1], fld, info["writes"][:3])
                if info["writes"] else "field never written on the parse path")
